@@ -876,13 +876,11 @@ func (cs *Contracts) parse(path, data string) error {
 			case "ghost":
 				if strings.HasPrefix(body, "at ") {
 					// ghost at "line text"[#k] NAME = expr : ghost variable set when execution reaches that line
-					b := strings.TrimSpace(body[3:])
-					end := strings.Index(b[1:], "\"")
-					if !strings.HasPrefix(b, "\"") || end < 0 {
+					at, b, okAnchor := anchorText(body[3:])
+					if !okAnchor {
 						return fail(fmt.Errorf("bad anchor"))
 					}
-					cl := Clause{Kind: "ghostat", At: b[1 : 1+end], AtOrd: 1, Text: body}
-					b = strings.TrimSpace(b[end+2:])
+					cl := Clause{Kind: "ghostat", At: at, AtOrd: 1, Text: body}
 					if strings.HasPrefix(b, "#") {
 						fmt.Sscanf(b, "#%d", &cl.AtOrd)
 						b = strings.TrimSpace(b[strings.IndexAny(b, " \t"):])
